@@ -590,7 +590,7 @@ def run(tier):
         viols, seen = [], {}
         stats = {'accepted': 0, 'explained_by_deviation': 0, 'unexplained': 0, 'tlc_trace_states': tstates, 'tlc_trace_runs': truns, 'events': 0, 'frames': 0,
                  'by_request': {}, 'by_fault': {}, 'by_leave': {}, 'census_ms_max': 0, 'line_classes': {}, 'refused_status': {}, 'at_cursor_probes': 0,
-                 'counterexamples_reproduced': [], 'counterexamples_not_reproduced': []}
+                 'counterexamples_reproduced': [], 'counterexamples_not_reproduced': [], 'event_kinds': {}}
         sample = None
         for (sc, res, tr, nl, mt) in work:
             v = verdicts.get(int(sc['id']))
@@ -607,6 +607,7 @@ def run(tier):
             for k_, n_ in line_classes(res['events']).items():
                 stats['line_classes'][k_] = stats['line_classes'].get(k_, 0) + n_
             for e in res['events']:
+                stats['event_kinds'][e['ev']] = stats['event_kinds'].get(e['ev'], 0) + 1
                 if e['ev'] == 'Refused':
                     k_ = '%s:%s' % (sc['req'], e.get('code'))
                     stats['refused_status'][k_] = stats['refused_status'].get(k_, 0) + 1
@@ -661,8 +662,10 @@ def run(tier):
             viols.append({'property': PID, 'signature': sig, 'msg': msg, 'replay': seen[sig]})
         nontrivial = sum(1 for (sc, res, tr, nl, mt) in work if sc['req'] == 'ok' and sc['meta']['queries'] >= 1)
         lc = stats['line_classes']
-        if not viols and (nontrivial < 10 or lc.get('old', 0) < 1 or lc.get('due_framed', 0) < 3):
-            raise vlib.Infra('vacuous run: %d scenarios with a data query, line classes %s' % (nontrivial, lc))
+        missing = [k for k in ('Start', 'Store', 'Version', 'Query', 'Frame', 'ClientClose', 'ClientDrop', 'ConnEOF', 'HandlerDone', 'Refused', 'Census')
+                   if not stats['event_kinds'].get(k)]
+        if not viols and (nontrivial < 10 or lc.get('old', 0) < 1 or lc.get('due_framed', 0) < 3 or lc.get('future_framed', 0) < 1 or missing):
+            raise vlib.Infra('vacuous run: %d scenarios with a data query, line classes %s, event kinds never recorded %s' % (nontrivial, lc, missing))
         cov = {
             'states': sum(s['distinct'] for s in mc) + tstates,
             'transitions': sum(s['generated'] for s in mc) + sim_states,
